@@ -457,6 +457,83 @@ pub fn traverse(m: &Model, ctx: &mut Ctx, rule: &str) {
     ctx.floor(&format!("{}/traversals", rule), seen, 10);
 }
 
+/// C09.select: a selection type `b < C` is the type of alternative `b` of C (X.680 clause 30) — the arm of
+/// link_choice_selection_type for a selection type is evaluated on a CHOICE with two alternatives: the rewritten node must
+/// be the selected alternative's type, for each alternative, and a missing alternative must not be accepted.
+pub fn select(m: &Model, ctx: &mut Ctx, rule: &str) {
+    use crate::eval::{Env, Evaluator, Val};
+    use std::collections::BTreeMap as Map;
+    let Some(f) = m.fns.iter().find(|f| f.name == "link_choice_selection_type" && f.self_ty.as_deref() == Some("ASN1Type")) else {
+        ctx.fail_closed(rule, "anchor not found: ASN1Type::link_choice_selection_type");
+        return;
+    };
+    ctx.func(&f.key);
+    let consts = const_resolver(m);
+    let ty = |k: &str| Val::Ctor(k.to_string(), vec![Val::Opaque(format!("{}-payload", k))], Map::new());
+    let option = |n: &str, t: Val| {
+        let mut f = Map::new();
+        f.insert("name".to_string(), Val::Str(n.into()));
+        f.insert("ty".to_string(), t);
+        f.insert("tag".to_string(), Val::none());
+        f.insert("constraints".to_string(), Val::List(vec![]));
+        Val::Ctor("ChoiceOption".into(), vec![], f)
+    };
+    let choice = {
+        let mut c = Map::new();
+        c.insert("options".to_string(), Val::List(vec![option("a", ty("Integer")), option("b", ty("Boolean"))]));
+        c.insert("extensible".to_string(), Val::none());
+        c.insert("constraints".to_string(), Val::List(vec![]));
+        Val::Ctor("Choice".into(), vec![Val::Ctor("Choice".into(), vec![], c)], Map::new())
+    };
+    let parent = {
+        let mut t = Map::new();
+        t.insert("name".to_string(), Val::Str("C".into()));
+        t.insert("ty".to_string(), choice.clone());
+        Val::Ctor("Type".into(), vec![Val::Ctor("ToplevelTypeDefinition".into(), vec![], t)], Map::new())
+    };
+    let hook = move |_: &Evaluator, name: &str, a: &[Val]| -> Option<Result<Val, String>> {
+        match (name, a.first()) {
+            (".get", Some(Val::Opaque(s))) if s == "tlds" => match a.get(1) {
+                Some(Val::Str(k)) if k == "C" => Some(Ok(Val::some(parent.clone()))),
+                Some(Val::Str(_)) => Some(Ok(Val::none())),
+                _ => Some(Err("tlds.get with a key that is not a name".into())),
+            },
+            ("grammar_error!", _) => Some(Ok(Val::Sym("error".into()))),
+            _ => None,
+        }
+    };
+    let ev = Evaluator { consts: &consts, call_hook: &hook, inline: None };
+    let tl = f.sig.inputs.iter().filter_map(|a| match a { syn::FnArg::Typed(t) => Some(tok(&t.pat)), _ => None }).next().unwrap_or("tlds".into());
+    for (sel, want) in [("a", Some("Integer")), ("b", Some("Boolean")), ("zz", None)] {
+        ctx.oblige(rule, &format!("{} < C", sel), true);
+        let mut c = Map::new();
+        c.insert("choice_name".to_string(), Val::Str("C".into()));
+        c.insert("selected_option".to_string(), Val::Str(sel.into()));
+        let me = Val::Ctor("ChoiceSelectionType".into(), vec![Val::Ctor("ChoiceSelectionType".into(), vec![], c)], Map::new());
+        let mut env = Env::new();
+        env.insert("self".into(), me);
+        env.insert(tl.clone(), Val::Opaque("tlds".into()));
+        let r = ev.eval_fn_body(&f.block, &mut env);
+        let after = env.get("self").cloned();
+        match (r, want) {
+            (Ok(Val::Ctor(ok, _, _)), Some(w)) if ok == "Ok" => {
+                let got = match &after { Some(Val::Ctor(k, _, _)) => k.clone(), o => format!("{:?}", o.as_ref().map(|x| x.show())) };
+                if got != w {
+                    ctx.violate(rule, "selected-alternative", &f.file, f.line,
+                        &format!("`{} < C` with C ::= CHOICE {{ a INTEGER, b BOOLEAN }} is rewritten to a {} type; a selection type denotes the type of the selected alternative ({})", sel, got, w));
+                }
+            }
+            (Ok(Val::Ctor(ok, _, _)), None) if ok == "Ok" => {
+                ctx.violate(rule, "missing-alternative-accepted", &f.file, f.line,
+                    &format!("`{} < C` names no alternative of C and is accepted (rewritten to {:?})", sel, after.map(|x| x.show())));
+            }
+            (Ok(Val::Ctor(e, _, _)), None) if e == "Err" => {}
+            (Ok(o), _) => ctx.violate(rule, "selected-alternative", &f.file, f.line, &format!("`{} < C`: link_choice_selection_type returns {}", sel, o.show())),
+            (Err(e), _) => ctx.fail_closed(rule, &format!("[{} < C]: {}", sel, e)),
+        }
+    }
+}
+
 pub fn run(m: &Model, ctx: &mut Ctx) {
     ctx.explanation = "C09.sym: each detector/rewriter pair of the linker (contains_components_of_notation / link_components_of_notation, has_choice_selection_type / link_choice_selection_type, \
 contains_constraint_reference / link_constraint_reference, references_class_by_name / resolve_class_reference) must traverse the same container variants of ASN1Type: a container the detector enters but the rewriter does not (or vice versa) leaves a notation unexpanded at that position. \
@@ -480,6 +557,7 @@ Not applicable: the equivalence sugared = expanded itself, independence from the
             ctx.fail_closed("C09.sym", &format!("anchor not found: {} / {}", d, r));
             continue;
         };
+        let (df, rf) = (through_wrapper(m, df), through_wrapper(m, rf));
         ctx.func(&df.key);
         ctx.func(&rf.key);
         let dv = variants_named(df, &en);
@@ -499,6 +577,9 @@ Not applicable: the equivalence sugared = expanded itself, independence from the
 
     scope(m, ctx, "C09.scope");
     traverse(m, ctx, "C09.traverse");
+    select(m, ctx, "C09.select");
+    // a class-field reference is replaced by the field's type and nothing else changes (= C02.rebuild)
+    crate::rules::c02::rebuild(m, ctx, "C09.rebuild");
     order(m, ctx, "C09.order");
     params(m, ctx);
     constraint_pairs(m, ctx, "C09.sym");
@@ -507,7 +588,7 @@ Not applicable: the equivalence sugared = expanded itself, independence from the
     // The SEQUENCE / SET arm of link_components_of_notation is evaluated on a referencing type { own, COMPONENTS OF R }
     // and a referenced type R { r1, r2, ..., e1 } (SEQUENCE and SET): which members arrive, in which order, and what
     // happens to the referencing type's own extension index.
-    if let Some(f) = m.fns.iter().find(|f| f.name == "link_components_of_notation" && f.self_ty.as_deref() == Some("ASN1Type")) {
+    if let Some(f) = m.fns.iter().find(|f| f.name == "link_components_of_notation" && f.self_ty.as_deref() == Some("ASN1Type")).map(|f| through_wrapper(m, f)) {
         use crate::eval::{Env, Evaluator, Val};
         use std::collections::BTreeMap;
         ctx.func(&f.key);
@@ -531,20 +612,30 @@ Not applicable: the equivalence sugared = expanded itself, independence from the
         match top {
             None => ctx.fail_closed("C09.splice", "link_components_of_notation has no `match self`"),
             Some(mt) => {
-                for (ref_kind, own_ext) in [("Sequence", None), ("Set", None), ("Sequence", Some(1usize)), ("Set", Some(1usize))] {
-                    let key = format!("referenced {} own-marker={:?}", ref_kind, own_ext);
+                for (ref_kind, own_ext, pending) in [("Sequence", None, false), ("Set", None, false), ("Sequence", Some(1usize), false), ("Set", Some(1usize), false), ("Sequence", None, true)] {
+                    let key = format!("referenced {} own-marker={:?}{}", ref_kind, own_ext, if pending { " referenced type has a pending COMPONENTS OF" } else { "" });
                     ctx.oblige("C09.splice", &key, true);
                     let rk = ref_kind.to_string();
-                    let referenced = seq(&["r1", "r2", "e1"], Some(2), &[]);
+                    let referenced = seq(&["r1", "r2", "e1"], Some(2), if pending { &["Q"] } else { &[] });
+                    let expanded_referenced = std::rc::Rc::new(std::cell::Cell::new(false));
+                    let er = expanded_referenced.clone();
+                    let is_referenced = |v: Option<&Val>| -> bool { v.map(|x| x.show().contains("r1")).unwrap_or(false) };
                     let hook = move |_: &Evaluator, name: &str, a: &[Val]| -> Option<Result<Val, String>> {
                         match name {
+                            n if n.starts_with(".link_components_of_notation") && is_referenced(a.first()) => {
+                                er.set(true);
+                                Some(Ok(Val::Bool(true)))
+                            }
+                            ".contains_components_of_notation" if is_referenced(a.first()) => Some(Ok(Val::Bool(pending))),
                             ".get" if matches!(a.first(), Some(Val::Opaque(s)) if s == "tlds") => {
                                 let mut t = BTreeMap::new();
                                 t.insert("ty".to_string(), Val::Ctor(rk.clone(), vec![referenced.clone()], BTreeMap::new()));
                                 t.insert("name".to_string(), Val::Str("R".into()));
                                 Some(Ok(Val::some(Val::Ctor("Type".into(), vec![Val::Ctor("ToplevelTypeDefinition".into(), vec![], t)], BTreeMap::new()))))
                             }
-                            ".link_components_of_notation" => Some(Ok(Val::Bool(false))),
+                            // recursion into member types / into the referenced type: nothing pending there
+                            n if n.starts_with(".link_components_of_notation") => Some(Ok(Val::Bool(false))),
+                            ".contains_components_of_notation" => Some(Ok(Val::Bool(false))),
                             ".clone" | ".to_owned" if a.len() == 1 => Some(Ok(a[0].clone())),
                             _ => None,
                         }
@@ -554,6 +645,10 @@ Not applicable: the equivalence sugared = expanded itself, independence from the
                     let selfv = Val::Ctor("Sequence".into(), vec![own], BTreeMap::new());
                     let mut env0 = Env::new();
                     env0.insert(params.first().cloned().unwrap_or("tlds".into()), Val::Opaque("tlds".into()));
+                    // further parameters (a visited list of the wrapper's worker) start empty
+                    for p in params.iter().skip(1) {
+                        env0.insert(p.clone(), Val::List(vec![]));
+                    }
                     let r = ev.select_arm(&mt, &selfv, &env0).and_then(|(i, mut e2)| {
                         let bound: Vec<String> = {
                             let mut ids = vec![];
@@ -563,6 +658,17 @@ Not applicable: the equivalence sugared = expanded itself, independence from the
                         ev.eval(&mt.arms[i].body, &mut e2)?;
                         bound.iter().filter_map(|b| e2.get(b).cloned()).next().ok_or_else(|| "the arm binds no payload".to_string())
                     });
+                    if pending {
+                        // the order in which types are linked is the order of their names: a referenced type can still carry its
+                        // own notation, which must be expanded before its members are copied (else its inherited components are lost)
+                        match &r {
+                            Ok(_) if !expanded_referenced.get() => ctx.violate("C09.splice", "pending-notation-of-referenced-type", &f.file, f.line,
+                                "COMPONENTS OF R where R itself still carries an unexpanded COMPONENTS OF Q (R sorts after the referencing type): R's members are copied as they stand and Q's components are silently missing — `Outer ::= SEQUENCE { COMPONENTS OF Middle, x INTEGER }  Middle ::= SEQUENCE { COMPONENTS OF Inner, y BOOLEAN }  Inner ::= SEQUENCE { z NULL }` loses z in Outer"),
+                            Ok(_) => {}
+                            Err(e) => ctx.fail_closed("C09.splice", &format!("[{}]: {}", key, e)),
+                        }
+                        continue;
+                    }
                     match r {
                         Ok(Val::Ctor(_, _, fm)) => {
                             let names: Vec<String> = match fm.get("members") {
